@@ -32,12 +32,16 @@ func (vc *VC) execInstr(fr *Frame, st *State, instr ssa.Instruction) {
 		r := vc.alloc(st, x.Comment)
 		fr.env[x] = r
 		if isStructLike(elem) {
-			vc.zeroStruct(st, r, elem)
-			fr.locs[x] = &Loc{kind: "sub", typ: elem, sub: true, subRef: r, base: r}
+			space := "F"
+			if !x.Heap {
+				space = "V" // non-escaping struct local: private space, never aliases the heap
+			}
+			vc.zeroStructSp(st, r, elem, space)
+			fr.locs[x] = &Loc{kind: "sub", typ: elem, sub: true, subRef: r, base: r, space: space}
 		} else if arr, ok := elem.Underlying().(*types.Array); ok {
 			// fixed array: elements live in the element heap under id r
 			ev := vc.elemSV(arr.Elem())
-			vc.set(st, ev, fmt.Sprintf("(store %s %s ((as const (Array Int %s)) %s))", vc.get(st, ev), r, vc.sortOf(arr.Elem()), vc.zeroOf(arr.Elem())))
+			vc.set(st, ev, fmt.Sprintf("(store %s %s ((as const (Array Int %s)) %s))", vc.get(st, ev), r, vc.sortOf(arr.Elem()), vc.constZero(arr.Elem())))
 		} else {
 			cell := vc.cellSV(elem)
 			vc.set(st, cell, fmt.Sprintf("(store %s %s %s)", vc.get(st, cell), r, vc.zeroOf(elem)))
@@ -49,17 +53,24 @@ func (vc *VC) execInstr(fr *Frame, st *State, instr ssa.Instruction) {
 		structT := x.X.Type().Underlying().(*types.Pointer).Elem()
 		vc.safety(fr, st, "nil", "pointer is non-nil at field access ."+structT.Underlying().(*types.Struct).Field(x.Field).Name(),
 			fmt.Sprintf("(not (= %s 0))", base), x.Pos())
-		loc := vc.fieldLoc(base, structT, x.Field)
+		space := "F"
+		if pl, ok := fr.locs[x.X]; ok && pl.space == "V" {
+			space = "V"
+		}
+		loc := vc.fieldLocSp(base, structT, x.Field, space)
 		fr.locs[x] = loc
 		vc.guardedAccess(fr, st, structT, x.Field, base, x, x.Pos())
 
 	case *ssa.Field:
+		// field of a struct value (value space)
 		base := vc.value(fr, st, x.X)
-		loc := vc.fieldLoc(base, x.X.Type(), x.Field)
-		if loc.kind == "sub" {
-			vc.bind(fr, x, "Int", loc.subRef)
+		ft := x.X.Type().Underlying().(*types.Struct).Field(x.Field).Type()
+		if isStructLike(ft) {
+			vc.bind(fr, x, "Int", fmt.Sprintf("(+ %s %d)", base, subOffset(x.X.Type(), x.Field)))
 		} else {
-			vc.bind(fr, x, vc.sortOf(x.Type()), vc.readLoc(st, loc))
+			sv := vc.valSV(x.X.Type(), x.Field)
+			t := vc.bind(fr, x, vc.sortOf(x.Type()), fmt.Sprintf("(select %s %s)", vc.get(st, sv), base))
+			vc.typeFacts(st, t, x.Type())
 		}
 
 	case *ssa.IndexAddr:
@@ -195,7 +206,7 @@ func (vc *VC) execInstr(fr *Frame, st *State, instr ssa.Instruction) {
 		vc.safety(fr, st, "bounds", "make: 0 <= len <= cap", fmt.Sprintf("(and (<= 0 %s) (<= %s %s))", n, n, c), x.Pos())
 		a := vc.alloc(st, "arr")
 		ev := vc.elemSV(elem)
-		vc.set(st, ev, fmt.Sprintf("(store %s %s ((as const (Array Int %s)) %s))", vc.get(st, ev), a, vc.sortOf(elem), vc.zeroOf(elem)))
+		vc.set(st, ev, fmt.Sprintf("(store %s %s ((as const (Array Int %s)) %s))", vc.get(st, ev), a, vc.sortOf(elem), vc.constZero(elem)))
 		vc.bind(fr, x, "Slice", fmt.Sprintf("(mk_slice %s 0 %s %s)", a, n, c))
 
 	case *ssa.Slice:
@@ -322,7 +333,7 @@ func (vc *VC) mapSV(mt *types.Map) (dom, val string) {
 	dom = "MD_" + key
 	val = "MV_" + key
 	vc.svDeclare(dom, fmt.Sprintf("(Array Int (Array %s Bool))", vc.sortOf(mt.Key())))
-	vc.svDeclare(val, fmt.Sprintf("(Array Int (Array %s %s))", vc.sortOf(mt.Key()), vc.sortOf(mt.Elem())))
+	vc.svDeclareT(val, fmt.Sprintf("(Array Int (Array %s %s))", vc.sortOf(mt.Key()), vc.sortOf(mt.Elem())), mt.Elem(), 2, vc.sortOf(mt.Key()))
 	return
 }
 
@@ -552,6 +563,11 @@ func (vc *VC) arith(fr *Frame, st *State, x *ssa.BinOp, term string, forceWrapUn
 		}
 	}
 	_, signed, _ := intModulus(t)
+	if !signed && vc.fc != nil && vc.fc.Arith == "math" {
+		vc.assume("A-INT: unsigned machine arithmetic treated as mathematical in " + vc.fc.Key + " (declared 'arith math': sizes and offsets stay far below 2^64)")
+		vc.bind(fr, x, "Int", term)
+		return
+	}
 	if !signed {
 		// unsigned arithmetic wraps exactly (subtraction underflow is a real-world pattern)
 		vc.bind(fr, x, "Int", vc.wrapIf(term, t, forceWrapUnsigned || true))
@@ -711,7 +727,17 @@ func (vc *VC) execSlice(fr *Frame, st *State, x *ssa.Slice) {
 		}
 		vc.safety(fr, st, "bounds", "slice bounds in range",
 			fmt.Sprintf("(and (<= 0 %s) (<= %s %s) (<= %s %s) (<= %s (s_cap %s)))", lo, lo, hi, hi, mx, mx, base), x.Pos())
-		vc.bind(fr, x, "Slice", fmt.Sprintf("(mk_slice (s_arr %s) (+ (s_off %s) %s) (- %s %s) (- %s %s))", base, base, lo, hi, lo, mx, lo))
+		if lo == "0" {
+			vc.bind(fr, x, "Slice", fmt.Sprintf("(mk_slice (s_arr %s) (s_off %s) %s (- %s %s))", base, base, hi, mx, lo))
+		} else {
+			// the new offset is a named constant so that it can appear in a quantifier pattern
+			noff := vc.fresh("Int", "off")
+			ooff := vc.fresh("Int", "off0")
+			vc.fact("true", fmt.Sprintf("(and (= %s (s_off %s)) (= %s (+ %s %s)))", ooff, base, noff, ooff, lo))
+			vc.bind(fr, x, "Slice", fmt.Sprintf("(mk_slice (s_arr %s) %s (- %s %s) (- %s %s))", base, noff, hi, lo, mx, lo))
+			// relate element positions of the re-sliced view to those of the original (for quantifier instantiation)
+			vc.fact("true", fmt.Sprintf("(forall ((i Int)) (! (= (ix %s i) (ix %s (+ i %s))) :pattern ((ix %s i))))", noff, ooff, lo, noff))
+		}
 	case *types.Pointer: // pointer to array
 		arr := xt.Elem().Underlying().(*types.Array)
 		hi := fmt.Sprint(arr.Len())
@@ -785,4 +811,23 @@ func (vc *VC) frameStore(fr *Frame, st *State, addr ssa.Value, loc *Loc, pos tok
 	case "global":
 		vc.assignCheckWhole(fr, st, loc.sv, pos)
 	}
+}
+
+
+// constZero: the zero value as an SMT value literal (cvc5 requires literals in constant arrays).
+func (vc *VC) constZero(t types.Type) string {
+	switch vc.sortOf(t) {
+	case "Slice":
+		return "(mk_slice 0 0 0 0)"
+	case "Iface":
+		return "(mk_iface 0 0)"
+	case "Bool":
+		return "false"
+	case "Real":
+		return "0.0"
+	}
+	if isStringType(t) {
+		return "(- 1)" // id of the empty string literal is assigned first; see strLit
+	}
+	return "0"
 }
